@@ -136,6 +136,8 @@ ModelFails(r, net, par, opts, x, u, d, elems) ==
      \cup (IF StepOpt(net, par, NoOpts, x, u, d) = Step(net, par, x, u, d) THEN {} ELSE {<<"model.noopts", "">>})
 
 \* ---- compiled functions (C03, C04, C05, C16, C17) -------------------------------------------------
+\* initial states supplied by the caller as expressions g(s) of its own symbols s (the function's arguments)
+Pre(t, z) == CASE t = "fmaxm20" -> RMax(RQ(-20, 1), z) [] t = "affine" -> (RQ(2, 1) (.) z) (-) RQ(3, 1) [] OTHER -> z
 SlotPairs(lay, args) == UNION {{<<lay[j].slots[i], args[j][i]>> : i \in DOMAIN lay[j].slots} : j \in DOMAIN lay}
 FnFails(r, k, net0, par0, opts, elems) ==
   LET f == r.obs.fn[k]
@@ -145,11 +147,12 @@ FnFails(r, k, net0, par0, opts, elems) ==
        LET pnames == [j \in DOMAIN f.params |-> f.params[j].name]
            lin == LayoutIn(net0, elems, f.compact, pnames)
            lout == LayoutOut(net0, elems, f.compact, f.more_out)
-           shapeOK == f.name_in = Names(lin) /\ f.size_in = Sizes(lin) /\ f.name_out = Names(lout) /\ f.size_out = Sizes(lout)
+           namesOK == ~f.check_names \/ (f.name_in = Names(lin) /\ f.name_out = Names(lout))
+           shapeOK == namesOK /\ f.size_in = Sizes(lin) /\ f.size_out = Sizes(lout)
        IN (IF f.free # 0 THEN {<<"fn.free", tag, f.free>>} ELSE {})
-          \cup (IF f.name_in # Names(lin) THEN {<<"fn.name_in", tag, Names(lin)>>} ELSE {})
+          \cup (IF f.check_names /\ f.name_in # Names(lin) THEN {<<"fn.name_in", tag, Names(lin)>>} ELSE {})
           \cup (IF f.size_in # Sizes(lin) THEN {<<"fn.size_in", tag, Sizes(lin)>>} ELSE {})
-          \cup (IF f.name_out # Names(lout) THEN {<<"fn.name_out", tag, Names(lout)>>} ELSE {})
+          \cup (IF f.check_names /\ f.name_out # Names(lout) THEN {<<"fn.name_out", tag, Names(lout)>>} ELSE {})
           \cup (IF f.size_out # Sizes(lout) THEN {<<"fn.size_out", tag, Sizes(lout)>>} ELSE {})
           \cup UNION {
             IF ~shapeOK THEN {} ELSE
@@ -168,9 +171,9 @@ FnFails(r, k, net0, par0, opts, elems) ==
                           !.origins = [o \in DOMAIN net0.origins |-> [net0.origins[o] EXCEPT !.C = PV("C", o, @)]]]
                 par == [par0 EXCEPT !.T = PV("T", "*", @), !.tau = PV("tau", "*", @), !.eta = PV("eta", "*", @), !.kappa = PV("kappa", "*", @),
                                     !.delta = PV("delta", "*", @), !.phi = PV("phi", "*", @)]
-                x == [rho |-> [l \in Links(net) |-> [i \in Segs(net, l) |-> Val(<<"rho", l, i>>)]],
-                      v   |-> [l \in Links(net) |-> [i \in Segs(net, l) |-> Val(<<"v", l, i>>)]],
-                      w   |-> [o \in Queued(net) |-> Val(<<"w", o, 1>>)]]
+                x == [rho |-> [l \in Links(net) |-> [i \in Segs(net, l) |-> Pre(f.pre, Val(<<"rho", l, i>>))]],
+                      v   |-> [l \in Links(net) |-> [i \in Segs(net, l) |-> Pre(f.pre, Val(<<"v", l, i>>))]],
+                      w   |-> [o \in Queued(net) |-> Pre(f.pre, Val(<<"w", o, 1>>))]]
                 u == [vctrl |-> [l \in CtlLinks(net) |-> [j \in 1..Cardinality(net.links[l].vsl) |-> Val(<<"vc", l, j>>)]],
                       o |-> [o \in Queued(net) |-> Val(<<"uo", o, 1>>)]]
                 d == [o |-> [o \in Queued(net) |-> Val(<<"do", o, 1>>)], dest |-> [q \in Congested(net) |-> Val(<<"dd", q, 1>>)]]
